@@ -10,6 +10,7 @@ import (
 	"hash/fnv"
 	"os"
 	"strings"
+	"sync"
 	"time"
 )
 
@@ -103,6 +104,48 @@ type partDef struct {
 
 var parts []partDef
 
+// Watchdog: a case that does not finish within a very generous limit means that a call of the
+// library blocked or spun forever (no recover() can catch that). The watchdog then records the
+// violation for the running case, writes the shard result and ends the shard.
+var (
+	wdMu     sync.Mutex
+	wdArmed  time.Time
+	wdPart   *Part
+	wdName   string
+	wdCase   any
+	wdFinish func()
+)
+
+const wdLimit = 90 * time.Second
+
+func arm(p *Part, name string, c any) {
+	wdMu.Lock()
+	wdArmed, wdPart, wdName, wdCase = time.Now(), p, name, c
+	wdMu.Unlock()
+}
+
+func disarm() {
+	wdMu.Lock()
+	wdArmed = time.Time{}
+	wdMu.Unlock()
+}
+
+func watchdog() {
+	for {
+		time.Sleep(2 * time.Second)
+		wdMu.Lock()
+		if !wdArmed.IsZero() && time.Since(wdArmed) > wdLimit {
+			raw, _ := json.Marshal(wdCase)
+			wdPart.fail(Violation{Clause: "call-blocked", Key: trunc(string(raw), 200),
+				Detail: fmt.Sprintf("case %s of %s did not finish within %v: a library call blocked or spun forever", trunc(string(raw), 300), wdName, wdLimit)}, wdCase)
+			wdPart.Capped = true
+			wdFinish()
+			os.Exit(0)
+		}
+		wdMu.Unlock()
+	}
+}
+
 // atExit functions run after a shard has written its result (temporary directories etc.).
 var atExit []func()
 
@@ -122,7 +165,9 @@ func definePart[C any](prop, name, tiers, bounds string, enum func(tier string, 
 					return
 				}
 				t1 := time.Now()
+				arm(p, name, c)
 				obs, vs, tr := check(c)
+				disarm()
 				if d := time.Since(t1); d > 2*time.Second {
 					fmt.Fprintf(os.Stderr, "enum: slow case in %s (%.1fs): %s\n", name, d.Seconds(), trunc(fmt.Sprint(c), 80))
 				}
@@ -195,6 +240,21 @@ func main() {
 		}
 		t0 := time.Now()
 		res := shardOut{Property: *prop, Tier: *tier, Shard: si, NShards: sn}
+		write := func() {
+			for _, f := range atExit {
+				f()
+			}
+			res.WallS = time.Since(t0).Seconds()
+			b, _ := json.Marshal(res)
+			if *out == "" {
+				os.Stdout.Write(b)
+				fmt.Println()
+			} else if err := os.WriteFile(*out, b, 0644); err != nil {
+				fmt.Fprintln(os.Stderr, err)
+				os.Exit(2)
+			}
+		}
+		go watchdog()
 		for _, pd := range parts {
 			if pd.prop != *prop || (*tier == "quick" && !strings.Contains(pd.tiers, "q")) {
 				continue
@@ -207,22 +267,12 @@ func main() {
 				r.deadline = t0.Add(time.Duration(*deadline) * time.Second)
 			}
 			p := &Part{Scenario: pd.name}
+			res.Scenarios = append(res.Scenarios, p)
+			wdFinish = func() { p.finish(); write() }
 			pd.run(r, p)
 			p.finish()
-			res.Scenarios = append(res.Scenarios, p)
 		}
-		for _, f := range atExit {
-			f()
-		}
-		res.WallS = time.Since(t0).Seconds()
-		b, _ := json.Marshal(res)
-		if *out == "" {
-			os.Stdout.Write(b)
-			fmt.Println()
-		} else if err := os.WriteFile(*out, b, 0644); err != nil {
-			fmt.Fprintln(os.Stderr, err)
-			os.Exit(2)
-		}
+		write()
 	case "replay":
 		fs := flag.NewFlagSet("replay", flag.ExitOnError)
 		part := fs.String("part", "", "part name")
